@@ -397,6 +397,39 @@ func run(r *mon.Run) {
 			}
 		}
 	}
+	// one bytes.Buffer reused as WriteTo sink and Read source over several write/read cycles
+	if r.Mine(3) {
+		var shared bytes.Buffer
+		g := r.Rand("buffer-cycles", 0)
+		for cyc := 0; cyc < 12; cyc++ {
+			o := gen.CorpusOpts(g, cyc*7+1, false, certs)
+			o.VariantSets, o.Big = 0, 0
+			b, _ := gen.RandBundle(g, o)
+			if _, err := b.WriteTo(&shared); err != nil {
+				r.HarnessFail("buffer-cycles: write failed: %v", err)
+				break
+			}
+			got, err := bundle.Read(&shared)
+			problem := ""
+			switch {
+			case err != nil:
+				problem = "read failed: " + err.Error()
+			case shared.Len() != 0:
+				problem = fmt.Sprintf("Read left %d bytes unread in the buffer it was given", shared.Len())
+			case got.Version != b.Version:
+				problem = fmt.Sprintf("cycle %d returned a %s bundle, a %s bundle had just been written", cyc, got.Version, b.Version)
+			default:
+				problem = diffGroups(expected(b, nil), groupImpl(got))
+			}
+			if problem != "" {
+				r.Eval("BUFFER-CYCLE-MISMATCH")
+				r.Violation(fmt.Sprintf("rt:buffer-cycle:%d", cyc), fmt.Sprintf("write/read cycle %d through one reused bytes.Buffer: %s", cyc, problem), nil)
+				break
+			}
+			r.Eval("buffer-cycle-ok")
+		}
+		r.Distinct("buffer-cycles")
+	}
 	// every status 100..999 once, each with a body and a header, in both versions
 	for vi, ver := range []version.Version{version.VersionB1, version.VersionB2} {
 		if !r.Mine(vi) {
